@@ -492,6 +492,7 @@ func (self *Node) expandForks(must bool) bool {
 				fork.fqname)
 			for _, id := range newForks {
 				nf := cloneFork(fork, id)
+				verifEvent("ForkAdded", "node", self.call.GetFqid(), "fork", nf.fqname, "path", nf.path)
 				self.forks = append(self.forks, nf)
 				self.forkIds.List = append(self.forkIds.List, id)
 			}
@@ -887,6 +888,7 @@ func (self *Node) step() bool {
 		}
 	}
 	self.state = newState
+	verifEvent("NodeState", "node", self.call.GetFqid(), "from", string(previousState), "to", string(newState))
 	switch self.state {
 	case Failed:
 		self.addFrontierNode(self)
@@ -953,6 +955,7 @@ func (self *Node) refreshState(readOnly bool) {
 		}
 
 		fqname, forkIndex, chunkIndex, uniquifier, state := self.parseRunFilename(filename)
+		verifEvent("JournalSeen", "file", filename)
 		if fqname == "" {
 			util.LogInfo("runtime",
 				"WARNING: failed to parse journal file name %s",
@@ -983,6 +986,7 @@ func (self *Node) refreshState(readOnly bool) {
 		}
 		if !readOnly {
 			os.Remove(path.Join(self.top.journalPath, file))
+			verifEvent("JournalRemove", "file", filename)
 		}
 	}
 	for _, node := range self.getFrontierNodes() {
@@ -1264,6 +1268,7 @@ func (self *Node) runJob(shellName, fqname, stageType string,
 			"Could not write jobinfo file, aborting.")
 		util.Suicide(false)
 	}
+	verifEvent("Submit", "md", metadata.path, "fq", fqname, "kind", shellName, "journal", runFile)
 	jobManager.execJob(shellCmd, argv, envs, metadata, res, fqname,
 		shellName, self.call.Call().Modifiers.Preflight && self.local)
 }
